@@ -19,6 +19,7 @@ Definition Rpow (a b : R) : R := if Req_EM_T a 0 then (if Req_EM_T b 0 then 1 el
   nmin := Rmin; nmax := Rmax;
   ltb := Rltb; leb := Rleb; eqb := Reqb;
   isnan := fun _ => false; isfinite := fun _ => true;
+  isposinf := fun _ => false; isneginf := fun _ => false;
   fexp := exp; flog := ln; fcos := cos; fpow := Rpow
 }.
 
@@ -33,7 +34,7 @@ Proof. unfold Reqb; destruct (Req_EM_T a b); constructor; assumption. Qed.
 Ltac unR :=
   cbv [zero one b2f where_ gtb geb neqb pymin pymax
        lit nan pinf ninf npi add sub mul div neg nabs nsqrt square spow2 pypow2
-       nmin nmax ltb leb eqb isnan isfinite fexp flog fcos fpow NumR Rlit] in *;
+       nmin nmax ltb leb eqb isnan isfinite isposinf isneginf fexp flog fcos fpow NumR Rlit] in *;
   cbn [Z.leb Z.compare Z.mul Z.pow Z.pow_pos Pos.iter Pos.mul Z.opp Pos.compare Pos.compare_cont] in *.
 
 (* Split every boolean comparison in the goal into its real-number meaning. *)
